@@ -96,21 +96,34 @@ def go_scenarios(scs, timeout=900, extra_env=None):
         env.update(extra_env)
     os.makedirs(os.path.join(BUILD, "coqcases"), exist_ok=True)
     path = os.path.join(BUILD, "coqcases", "scen_%d_%d.jsonl" % (os.getpid(), next(_scen_counter)))
-    with open(path, "w") as f:
-        f.write("\n".join(json.dumps(s) for s in scs))
-    try:
-        rc, out, err = sh([HARNESS_BIN, "scenario", path], env=env, timeout=timeout)
-    finally:
+    results = []
+    todo = list(scs)
+    hangs = 0
+    while todo:
+        with open(path, "w") as f:
+            f.write("\n".join(json.dumps(s) for s in todo))
         try:
-            os.remove(path)
-        except OSError:
-            pass
-    if rc != 0:
-        raise CheckError("harness scenario run failed: rc=%d %s" % (rc, err.decode(errors="replace")[-3000:]))
-    lines = [l for l in out.decode().split("\n") if l]
-    if len(lines) != len(scs):
-        raise CheckError("harness produced %d results for %d scenarios; stderr: %s" % (len(lines), len(scs), err.decode(errors="replace")[-2000:]))
-    return [json.loads(l) for l in lines]
+            rc, out, err = sh([HARNESS_BIN, "scenario", path], env=env, timeout=timeout)
+        finally:
+            try:
+                os.remove(path)
+            except OSError:
+                pass
+        lines = [json.loads(l) for l in out.decode().split("\n") if l]
+        if rc == 3 and lines and lines[-1].get("hang") and hangs < 20:
+            # the implementation did not terminate on the last reported scenario: the harness left
+            # (a goroutine cannot be stopped); carry on with the scenarios after it
+            hangs += 1
+            results += lines
+            todo = todo[len(lines):]
+            continue
+        if rc != 0:
+            raise CheckError("harness scenario run failed: rc=%d %s" % (rc, err.decode(errors="replace")[-3000:]))
+        if len(lines) != len(todo):
+            raise CheckError("harness produced %d results for %d scenarios; stderr: %s" % (len(lines), len(todo), err.decode(errors="replace")[-2000:]))
+        results += lines
+        todo = []
+    return results
 
 
 def make_coq(clean=False, timeout=3000):
@@ -430,4 +443,18 @@ def std_proof_phase(rep, pid, skip_make=False):
         rep.violation("proof audit failed: " + "; ".join(probs + au["problems"])[:500],
                       {"kind": "proof-audit", "problems": probs + au["problems"]}, no_input=True)
         return False
+    if rep.tier == "thorough" and os.environ.get("VERIF_NO_COQCHK") != "1":
+        # independent re-check of the compiled property file and everything it depends on
+        cmd = ["coqchk", "-silent", "-o", "-Q", os.path.join(COQ, "theories"), "GoFlags", "GoFlags.Props." + pid]
+        rc, out, err = sh(cmd, cwd=COQ, timeout=6000)
+        txt = (out + err).decode(errors="replace")
+        rep.extra["coqchk_cmd"] = " ".join(cmd)
+        rep.extra["coqchk_tail"] = txt[-1500:]
+        m = re.search(r"\* Axioms:\s*(.*?)(?:\n\* |\Z)", txt, re.S)
+        ax = [l.strip() for l in (m.group(1).split("\n") if m else []) if l.strip() and "<none>" not in l]
+        rep.extra["coqchk_axioms"] = ax
+        if rc != 0 or ax:
+            rep.violation("coqchk failed or reports axioms: rc=%d %s" % (rc, ", ".join(ax)[:300]),
+                          {"kind": "proof-audit", "coqchk": txt[-3000:]}, no_input=True)
+            return False
     return True
